@@ -3,7 +3,7 @@
 HOOKS = {
     'guard': 'KHIZMAX_LIBCDS_VERIF',
     'enable': 'every harness TU and /repo/src/*.cpp are compiled with -DKHIZMAX_LIBCDS_VERIF -I/verif/include -I/repo (tools/gen_ninja.py); '
-              'the guard makes cds/algo/atomic.h alias `atomics` to cds_verif::atomics (instrumented std::atomic wrapper calling the perturbation engine)',
+              'the guard makes cds/algo/atomic.h alias `atomics` to cds_verif::atomics (instrumented std::atomic wrapper that calls the perturbation engine before every atomic operation and after every store / RMW / CAS)',
     'baseline_off_cmd': 'sh tools/baseline_off.sh',
     'source_commits': ['1de2e61'],   # fix: commits (not hooks): 6b2711f
     'add_only': True,
@@ -135,8 +135,8 @@ CHECKS = {
     'C16': {
         'technique': 'runtime monitoring: per-key WGL linearizability checking of recorded concurrent histories on lock-based hash sets with tiny capacities so that resizes interleave with operations; ASan/UBSan; TSan payload monitor (locks are visible to TSan)',
         'level_text': 'CuckooSet (striping/refinable over std::recursive_mutex and reentrant spin; list and vector<2..4> probe sets; ordered/unordered; stored hashes; initial size 4-8, probe-set size 2-4) and StripedSet (striping/refinable; std list/vector/set/unordered_set and '
-                      'boost list/slist/vector/stable_vector/set/flat_set/unordered_set buckets; load-factor and single-bucket-threshold policies incl. runtime forms; capacity 16 minimum) over 3-40 keys: per-key WGL incl. functor forms; resize/relocation counters reported',
-        'level_note': LIN_NOTE + '; set forms only; single_bucket_size_threshold is combined with spreading hashes only (with colliding hashes the table doubles without bound: memory exhaustion, not a C16 event); intrusive bucket adapters not driven',
+                      'boost list/slist/vector/stable_vector/set/flat_set/unordered_set buckets; load-factor and single-bucket-threshold policies incl. runtime forms; capacity 16 minimum) and intrusive::StripedSet over boost::intrusive list/set (a separate implementation; items owned and deleted by the harness) over 3-40 keys: per-key WGL incl. functor forms; resize/relocation counters reported. Found and fixed: F24 (relocate deadlock)',
+        'level_note': LIN_NOTE + '; set forms only; single_bucket_size_threshold is combined with spreading hashes only (with colliding hashes the table doubles without bound: memory exhaustion, not a C16 event)',
     },
     'C18': {
         'technique': 'runtime monitoring: structural invariants checked at quiescent points (all workers parked at a barrier) after concurrent and sequential histories: exact traversal, size()/empty(), check_consistency()',
@@ -145,10 +145,10 @@ CHECKS = {
         'level_note': 'trusted base as C13; split-order of SplitList traversal and the per-level ordering of skip-list towers are not inspected (would need protected members); trees without iterators are checked through check_consistency() and lookups only',
     },
     'C17': {
-        'technique': 'runtime monitoring by model-based differential execution: sequential insert/erase cases with degenerate hash tuples, the whole content compared with std::set after EVERY operation; each case in a forked child under an address-space limit and an alarm (expiry = inconclusive); ASan/UBSan',
+        'technique': 'runtime monitoring by model-based differential execution (sequential insert/erase cases with degenerate hash tuples) plus a private-key conservation monitor under concurrent growth; sequential part: the whole content compared with std::set after EVERY operation; each case in a forked child under an address-space limit and an alarm (expiry = inconclusive); ASan/UBSan',
         'level_text': 'Seeded cases = family (CuckooSet list/vector probe sets ordered/unordered; StripedSet std::list/vector/set with load-factor and single-bucket-threshold policies; SplitListSet expandable and static tables; FeldmanHashSet) x parameters '
                       '(initial size 1-64, probe-set size 2-4 and threshold, load factor 1-4, head/array bits 2-8) x hash tuple (identity, constant, k mod m, (k/d) mod m, high bits only, spreading; identical functions for cuckoo; Feldman: keys shifted so they collide on all chunks but one) '
-                      'x dense/sparse key set x 4-120 operations: contains() of every key, size() and the final traversal must equal the model after every step; evidence counts the cases in which the container really grew. Found and fixed: F18; known finding F7 (Cuckoo resize drops an element)',
+                      'x dense/sparse key set x 4-120 operations: contains() of every key, size() and the final traversal must equal the model after every step; evidence counts the cases in which the container really grew. Found and fixed: F18; known finding F7 (Cuckoo resize drops an element). Second part, concurrent: 2-4 threads fill one container that starts with the minimal table, each thread on keys of its own, so every key has a sequential history whatever the interleaving: an acknowledged insert must stay visible to its owner (contains/find/duplicate insert/update) until the owner erases it, and after the join the set holds exactly the keys the owners believe present (all CuckooSet / StripedSet / intrusive::StripedSet variants of the C16 harness; found and fixed: F24)',
         'level_note': 'trusted base: std::set as reference, the forked-case runner; cuckoo key sets are limited to one probe set per class of keys that collide in BOTH functions (beyond arity x probe-set size such keys can never be stored and insert() resizes forever); '
                       'cases ended by the 2 s alarm or the 1 GB limit are reported as inconclusive, never as violations',
     },
@@ -188,7 +188,7 @@ CHECKS = {
     },
     'C24': {
         'technique': 'runtime monitoring: side-table ownership ledger keyed by object address plus in-object tokens on real vyukov_queue_pool / lazy_vyukov_queue_pool / bounded_vyukov_queue_pool / pool_allocator; ASan',
-        'level_text': '11 pool variants (capacities 2-8, static and dynamic buffers, pool_allocator and its rebind): allocate() may not return an object that is held, a held object may not be overwritten, objects are deallocated by other threads than the allocator; '
+        'level_text': '11 pool variants (capacities 2-8, static and dynamic buffers, pool_allocator and its rebind): allocate() may not return an object that is held, a held object may not be overwritten, objects are deallocated by other threads than the allocator, the destructor of the pooled type wipes the token (a destructor run on an object that is held again is seen by the holder); '
                       'strict mode (permits = capacity): the bounded pool may not throw and the unbounded one may not fall back to the heap; overcommit mode past capacity: heap fall-backs are ledgered too, bad_alloc of the bounded pool accepted; '
                       'quiescent drain: exactly the missing objects come back (none lost)',
         'level_note': 'trusted base: the harness ledger, x86-64 TSO, ASan runtime; capacity 1 violates the buffer precondition and is not driven; pools hand out raw storage, so the ledger lives outside the objects',
